@@ -36,8 +36,9 @@ def dispatch (op : String) (f : List Text) : String :=
       | none => "err"
       | some c => s!"ok disabled=[{",".intercalate (c.disabled.map String.ofList)}] ip={tf c.ignorePrerelease} ri={c.refreshInterval}"
   | "ca.run", f => caRun f
-  | "ca.locate", [content, version, hash, so, eo, line, col] =>
-    let p : PkgInfo := ⟨"x".toList, version, (match hash with | 'S' :: h => some h | _ => none), natOfText so, natOfText eo, natOfText line, natOfText col, none⟩
+  | "ca.locate", content :: version :: hash :: so :: eo :: line :: col :: more =>
+    let extra : Option (Text × Nat × Nat) := match more with | [cs, ce] => some (['c'], natOfText cs, natOfText ce) | _ => none
+    let p : PkgInfo := ⟨"x".toList, version, (match hash with | 'S' :: h => some h | _ => none), natOfText so, natOfText eo, natOfText line, natOfText col, extra⟩
     match Bump.locate content p with
     | none => "none"
     | some q => s!"{q.startOffset} {q.endOffset} {q.line} {q.column} {hex q.version}"
